@@ -24,6 +24,10 @@ type Op struct {
 	ID    int
 	Name  string
 	Guard func() bool // readiness probe (e.g. TryLock on the object's mutex); nil = always enabled
+	// Eager: the op may be started although Guard says the object's mutex is taken. In the library as it is the call then
+	// blocks inside (found by stack inspection) and is woken, deterministically, at the first scheduling point at which
+	// Guard holds again; if the call does not use that mutex it simply runs inside the other call's critical section.
+	Eager bool
 	Call  func() string
 }
 
@@ -152,6 +156,8 @@ func (s *Sched) Yield(site string) {
 
 //go:norace
 func (s *Sched) stamp() int {
+	s.mu.Lock() // an eagerly started call can finish while the call that held the mutex is still on its way to its next park
+	defer s.mu.Unlock()
 	s.seq++
 	return s.seq
 }
@@ -181,7 +187,9 @@ func (w *worker) begin(s *Sched, i int, op *Op) int {
 func (w *worker) end(s *Sched, op *Op, inv int, out string) {
 	raceDisable()
 	ret := s.stamp()
+	s.mu.Lock()
 	s.Calls = append(s.Calls, Call{Worker: w.id, Op: op, Invoke: inv, Return: ret, Output: out})
+	s.mu.Unlock()
 	w.curOp = nil
 	raceEnable()
 }
@@ -265,6 +273,23 @@ func (s *Sched) Run() {
 	for {
 		// wake-ups of previously blocked workers
 		for _, w := range s.workers {
+			if w.state == 3 && w.curOp != nil && w.curOp.Eager && w.curOp.Guard != nil {
+				// eagerly started call blocked on the object's mutex: it proceeds exactly when that mutex is free at a
+				// scheduling point (everybody else is parked now, so it is the only taker)
+				if !w.curOp.Guard() && blockedInLibrary(w) {
+					continue
+				}
+				for i := 0; i < 25000 && blockedInLibrary(w); i++ {
+					time.Sleep(200 * time.Microsecond)
+				}
+				if blockedInLibrary(w) {
+					continue
+				}
+				s.trace("woke-eager:" + strconv.Itoa(w.id))
+				w.state = 1
+				s.await(w)
+				continue
+			}
 			if w.state == 3 && !blockedInLibrary(w) {
 				s.trace("woke:" + strconv.Itoa(w.id))
 				w.state = 1
@@ -283,7 +308,7 @@ func (s *Sched) Run() {
 				continue
 			}
 			if w.atOp {
-				if g := w.ops[w.opIdx].Guard; g != nil && !g() {
+				if op := w.ops[w.opIdx]; op.Guard != nil && !op.Eager && !op.Guard() {
 					contended = true
 					continue
 				}
